@@ -121,17 +121,17 @@ def xl_sources():
     return sorted(os.path.join(d, f) for f in os.listdir(d) if f.endswith(".c") and not f.endswith("_test.c") and f != "test.c")
 
 
-def build_translator_plain():
+def build_translator_plain(extra_defs=(), not_for=()):
     srcs = xl_sources()
     hdrs = glob_files(os.path.join(REPO, "w2c2"), (".h",))
-    key = sha(hash_files(srcs + hdrs), "plain-gcc-O1")
+    key = sha(hash_files(srcs + hdrs), "plain-gcc-O1", *(tuple(extra_defs) + tuple("not:" + x for x in not_for)))
     d, ok = cached_dir("xl_plain", key)
     exe = os.path.join(d, "w2c2")
     if ok:
         return exe, key
     shutil.rmtree(d, ignore_errors=True)
     os.makedirs(d)
-    cmds = [["gcc", "-O1", "-w"] + XL_DEFS + ["-c", s, "-o", os.path.join(d, os.path.basename(s)[:-2] + ".o")] for s in srcs]
+    cmds = [["gcc", "-O1", "-w"] + XL_DEFS + ([] if os.path.basename(s) in not_for else list(extra_defs)) + ["-c", s, "-o", os.path.join(d, os.path.basename(s)[:-2] + ".o")] for s in srcs]
     parallel_cmds(cmds)
     run_cmd(["gcc", "-o", exe] + [os.path.join(d, os.path.basename(s)[:-2] + ".o") for s in srcs] + ["-lpthread", "-lm"])
     mark_done(d)
